@@ -358,9 +358,20 @@ pub fn exec(case: &Value) -> Vec<Value> {
                 }
             }
             Err(_) => {
+                // a token that is no text on its own (a lone byte >= 0x80): decoding its id may fail, but must not return
+                // other bytes than the token's
                 utf8.push(false);
                 t2i.push(-1);
-                dec1.push(json!([NONE]));
+                match guard(|| tok.de_tokenize(&[id as u32], false)) {
+                    Ok(Ok(s)) => dec1.push(bytes_json(s.as_bytes())),
+                    Ok(Err(_)) => dec1.push(json!([NONE])),
+                    Err(m) => {
+                        if st == "ok" {
+                            st = format!("panic:de_tokenize1:{m}");
+                        }
+                        dec1.push(json!([NONE]))
+                    }
+                }
             }
         }
     }
